@@ -288,8 +288,13 @@ func (x *Exec) enterLoop(fr *frame, li *loopInfo, s *State) *State {
 	}
 	switch {
 	case hs.all:
+		pre := map[Sort]Term{}
+		for k, h := range n.Heaps {
+			pre[k] = h
+		}
 		x.havocHeaps(n, nil, "loop")
 		x.assumeFrame(n, AllLeafSorts)
+		x.loopPreserved(fr, li, n, pre)
 	default:
 		var sorts []Sort
 		for _, k := range AllLeafSorts {
@@ -356,5 +361,91 @@ func (x *Exec) backEdge(fr *frame, li *loopInfo, s *State, cond Term) {
 		v1 := env.toBV64(env.eval(lc.Decreases.Expr))
 		x.C.Oblige(fmt.Sprintf("%s#loop%d.decreases.%d", shortFn(fr.fn), li.ordinal, be), "decreases", pos, lc.Decreases.Text, cond,
 			And(BVCmp("bvslt", v1, v0), BVCmp("bvsge", v0, BVLitI(64, 0))))
+	}
+}
+
+// loopPreserved: fields under a write-set declaration that no call in the loop
+// can write (and that the loop's own function is not a writer of) keep their
+// values across the loop's heap havoc.
+func (x *Exec) loopPreserved(fr *frame, li *loopInfo, n *State, pre map[Sort]Term) {
+	if len(x.E.FieldDecls) == 0 {
+		return
+	}
+	keep := map[*FieldDecl]bool{}
+	for _, fd := range x.E.FieldDecls {
+		if len(fd.Violated) == 0 {
+			keep[fd] = true
+		}
+	}
+	// direct writes inside the loop body
+	for b := range li.body {
+		for _, in := range b.Instrs {
+			switch in := in.(type) {
+			case *ssa.FieldAddr:
+				pt := deref(in.X.Type())
+				for fd := range keep {
+					if fd.idx == in.Field && types.Identical(pt, fd.named) {
+						for _, r := range *in.Referrers() {
+							if x.E.addrUseIsWrite(in, r, 0) {
+								delete(keep, fd)
+								break
+							}
+						}
+					}
+				}
+			case *ssa.Store:
+				for fd := range keep {
+					if containsNamed(in.Val.Type(), fd.named, 0) {
+						delete(keep, fd)
+					}
+				}
+			}
+		}
+	}
+	for b := range li.body {
+		for _, in := range b.Instrs {
+			var c *ssa.CallCommon
+			switch in := in.(type) {
+			case *ssa.Call:
+				c = &in.Call
+			case *ssa.Defer:
+				c = &in.Call
+			case *ssa.Go:
+				c = &in.Call
+			default:
+				continue
+			}
+			if _, ok := c.Value.(*ssa.Builtin); ok {
+				continue
+			}
+			callee := c.StaticCallee()
+			if callee == nil {
+				x.C.Trusted["dynamic calls (callbacks, interface methods of other packages) do not re-enter the package to write fields under a write-set declaration"] = true
+				continue
+			}
+			ok := map[*FieldDecl]bool{}
+			for _, fd := range x.E.preservedBy(callee) {
+				ok[fd] = true
+			}
+			for fd := range keep {
+				if !ok[fd] {
+					delete(keep, fd)
+				}
+			}
+		}
+	}
+	post := map[Sort]Term{}
+	for k, h := range n.Heaps {
+		post[k] = h
+	}
+	for _, fd := range x.E.FieldDecls {
+		if !keep[fd] {
+			continue
+		}
+		rec := frameRec{fd: fd, pre: pre, post: post}
+		x.frames = append(x.frames, rec)
+		for _, a := range x.noted[fd.named.Obj().Name()] {
+			x.instFrame(rec, a)
+		}
 	}
 }
